@@ -1,0 +1,22 @@
+// SPDX-FileCopyrightText: 2020-present Open Networking Foundation <info@opennetworking.org>
+//
+// SPDX-License-Identifier: Apache-2.0
+
+//go:build verif
+
+package gnmi
+
+import (
+	topoapi "github.com/onosproject/onos-api/go/onos/topo"
+	gclient "github.com/openconfig/gnmi/client/gnmi"
+)
+
+// NewConnForVerif wraps an established gNMI client into a Conn with the given identity
+func NewConnForVerif(targetID topoapi.ID, id ConnID, c *gclient.Client) Conn {
+	return &conn{client: &client{client: c}, id: id, targetID: targetID}
+}
+
+// NewClientForVerif wraps an established gNMI client into a Client
+func NewClientForVerif(c *gclient.Client) Client {
+	return &client{client: c}
+}
